@@ -103,10 +103,35 @@ Proof.
   destruct (existsb (N.eqb t) ts); [now rewrite orb_true_r|]. rewrite orb_false_r. now destruct (t =? a).
 Qed.
 
-Lemma vf_after_le : forall ws vf h, vf_after ws vf h = true -> vf h = true.
+Lemma vmem_del_le : forall h vf x, vmem (vf_del h vf) x = true -> vmem vf x = true.
+Proof.
+  unfold vmem, vf_del. intros h vf x H. apply existsb_exists in H. destruct H as [y [Hi He]].
+  apply filter_In in Hi. apply existsb_exists. exists y. tauto.
+Qed.
+
+Lemma vmem_firstn_le : forall n vf x, vmem (firstn n vf) x = true -> vmem vf x = true.
+Proof.
+  unfold vmem. intros n vf x H. apply existsb_exists in H. destruct H as [y [Hi He]].
+  apply existsb_exists. exists y. split; auto. rewrite <- (firstn_skipn n vf). apply in_or_app. now left.
+Qed.
+
+Lemma vmem_add_le : forall h vf x, vmem (vf_add h vf) x = true -> x = h \/ vmem vf x = true.
+Proof.
+  unfold vf_add. intros h vf x H. apply vmem_firstn_le in H. unfold vmem in H. cbn [existsb] in H.
+  apply orb_prop in H. destruct H as [H|H]. left. now apply N.eqb_eq in H. right. eapply vmem_del_le; eauto.
+Qed.
+
+Lemma vmem_get_le : forall h vf x, vmem (vf_get h vf) x = true -> vmem vf x = true.
+Proof.
+  unfold vf_get. intros h vf x H. destruct (vmem vf h) eqn:Eh; auto.
+  unfold vmem in H. cbn [existsb] in H. apply orb_prop in H. destruct H as [H|H].
+  apply N.eqb_eq in H. now subst. eapply vmem_del_le; eauto.
+Qed.
+
+Lemma vf_after_le : forall ws vf h, vmem (vf_after ws vf) h = true -> vmem vf h = true.
 Proof.
   unfold vf_after. induction ws as [|w ws IH]; intros vf h H; cbn in H. exact H.
-  apply IH in H. destruct w; auto. unfold upd in H. destruct (h =? h0); [discriminate|exact H].
+  apply IH in H. destruct w; auto. eapply vmem_del_le; eauto.
 Qed.
 
 Section Universe.
@@ -592,25 +617,21 @@ Proof.
 Qed.
 
 (* every cached block is tx-disjoint from the (unique) chain below its parent *)
-Definition vf_ok (vf : N -> bool) : Prop :=
-  forall b a rest, U b -> vf (hash b) = true -> chain_ok (a :: rest) -> pre b = hash a -> disj b (a :: rest).
+Definition vf_ok (vf : list N) : Prop :=
+  forall b a rest, U b -> vmem vf (hash b) = true -> chain_ok (a :: rest) -> pre b = hash a -> disj b (a :: rest).
 
 Lemma vf_ok_after : forall ws vf, vf_ok vf -> vf_ok (vf_after ws vf).
 Proof. intros ws vf H b a rest Ub Hv. apply H; auto. eapply vf_after_le; eauto. Qed.
 
+Lemma vf_ok_get : forall h vf, vf_ok vf -> vf_ok (vf_get h vf).
+Proof. intros h vf H b a rest Ub Hv. apply H; auto. eapply vmem_get_le; eauto. Qed.
+
 Lemma vf_ok_upd : forall vf b, vf_ok vf -> U b ->
-  (forall a rest, chain_ok (a :: rest) -> pre b = hash a -> disj b (a :: rest)) -> vf_ok (upd vf (hash b) true).
+  (forall a rest, chain_ok (a :: rest) -> pre b = hash a -> disj b (a :: rest)) -> vf_ok (vf_add (hash b) vf).
 Proof.
-  intros vf b H Ub Hb b' a rest Ub' Hv Hc Hp. unfold upd in Hv.
-  destruct (N.eqb_spec (hash b') (hash b)) as [e|ne].
+  intros vf b H Ub Hb b' a rest Ub' Hv Hc Hp. apply vmem_add_le in Hv. destruct Hv as [e|Hv].
   - assert (b' = b) by (apply U_inj; auto). subst. now apply Hb.
   - now apply (H b' a rest).
-Qed.
-
-Lemma vf_ok_upd_hit : forall vf b, vf (hash b) = true -> vf_ok vf -> vf_ok (upd vf (hash b) true).
-Proof.
-  intros vf b Hh H b' a rest Ub' Hv. apply H; auto. unfold upd in Hv.
-  destruct (N.eqb_spec (hash b') (hash b)) as [e|ne]; auto. now rewrite e.
 Qed.
 
 Lemma exec_disj : forall s l b, rep s l -> existsb (exec s) (txs b) = false -> disj b l.
@@ -634,7 +655,7 @@ Lemma is_some_false : forall A (o : option A), is_some o = false -> o = None.
 Proof. now destruct o. Qed.
 
 Definition add_post (s : st) (l : list block) (b : block) (ws : list write) (r : result) (ex : bool)
-  (vf' : N -> bool) : Prop :=
+  (vf' : list N) : Prop :=
   (exists l', chain_ok l' /\ rep (apply ws s) l' /\ (ex = false -> qhd l <= qhd l') /\
               (ex = false -> r = RSucc -> qn b <= qhd l')) /\
   (forall top t, l = top :: t -> pre b = hash top -> findH (hash b) l = None -> disj b l -> ex = false -> r = RSucc) /\
@@ -673,7 +694,7 @@ Proof.
       rewrite E2, findH_cons, N.eqb_refl in Eanc. discriminate. }
   pose proof Eanc as Eanc0. apply findH_some in Eanc. destruct Eanc as [Hia Hha].
   assert (Utop : U top) by (eapply chain_ok_U; eauto; now left).
-  destruct (negb (vf (hash b)) && existsb (exec s) (txs b)) eqn:Ever.
+  destruct (negb (vmem vf (hash b)) && existsb (exec s) (txs b)) eqn:Ever.
   { inversion E0; subst. apply add_stay; auto. discriminate.
     intros top' t' E1 E2 E3 Hdj. inversion E1; subst top' t'. apply andb_prop in Ever. destruct Ever as [_ Ex].
     rewrite (disj_exec _ _ _ R Hdj) in Ex. discriminate. }
@@ -682,9 +703,9 @@ Proof.
   assert (Hs1 : suffix (anc :: rest) (top :: t)) by (rewrite <- Hd; apply drop_above_suffix).
   assert (Hc1 : chain_ok (anc :: rest)) by (eapply chain_ok_suffix; eauto; discriminate).
   assert (Uanc : U anc) by (apply (chain_ok_U _ _ Hc Hia)).
-  assert (Dj : disj b (anc :: rest) /\ vf_ok (upd vf (hash b) true)).
-  { destruct (vf (hash b)) eqn:Ehit.
-    - split. apply (Hvf b anc rest); auto. now apply vf_ok_upd_hit.
+  assert (Dj : disj b (anc :: rest) /\ vf_ok (if vmem vf (hash b) then vf else vf_add (hash b) vf)).
+  { destruct (vmem vf (hash b)) eqn:Ehit.
+    - split. apply (Hvf b anc rest); auto. exact Hvf.
     - cbn in Ever. assert (D0 : disj b (top :: t)) by (eapply exec_disj; eauto).
       assert (D1 : disj b (anc :: rest)) by (eapply disj_suffix; eauto).
       split; auto. apply vf_ok_upd; auto. intros a' rest' Hc' Hp'.
@@ -692,7 +713,7 @@ Proof.
       { apply U_inj; auto. eapply chain_ok_U; eauto. now left. congruence. }
       subst a'. rewrite (chain_uniq _ _ _ Hc' Hc1). exact D1. }
   destruct Dj as [Dj Hvf1]. clear Ever.
-  remember (upd vf (hash b) true) as vf1.
+  remember (if vmem vf (hash b) then vf else vf_add (hash b) vf) as vf1.
   (* the reorg continuation, used by two branches *)
   assert (Reorg : qn top <= qn b -> pre b <> hash top -> forall ws r ex vf',
     (let ws1 := rfca (N.to_nat (height top - height anc)) s (height anc) (height top) in
@@ -729,11 +750,12 @@ Proof.
     destruct (top_facts _ b Hc Ht) as [p' [t' [E' [_ [_ [_ [_ [_ [Hc' _]]]]]]]]].
     assert (Hq : qn top <= qn b) by (apply (U_child top b); auto).
     destruct (fut (hash b)) as [c|] eqn:Ef.
-    + destruct (add_writes f fut vf1 (apply (insert_writes b) s) c) as [[[ws2 r2] ex2] vf2] eqn:E2.
+    + cbn zeta in E0.
+      destruct (add_writes f fut (vf_get (hash b) vf1) (apply (insert_writes b) s) c) as [[[ws2 r2] ex2] vf2] eqn:E2.
       assert (Ew : ws = insert_writes b ++ ws2) by congruence.
       assert (Er : r = RSucc) by congruence. assert (Ee : ex = ex2) by congruence.
       assert (Ev : vf' = vf2) by congruence. clear E0. subst ws r ex vf'.
-      destruct (IH fut _ _ _ c Hfut Hvf1 Hc' R' (Hfut _ _ Ef) _ _ _ _ E2) as [[l' [P1 [P2 [P3 P4]]]] [P5 [P6 P7]]].
+      destruct (IH fut _ _ _ c Hfut (vf_ok_get (hash b) _ Hvf1) Hc' R' (Hfut _ _ Ef) _ _ _ _ E2) as [[l' [P1 [P2 [P3 P4]]]] [P5 [P6 P7]]].
       split; [|split; [|split]]; auto.
       * exists l'. rewrite apply_app. split; auto. split; auto. cbn [qhd] in *.
         split; intros; specialize (P3 H); lia.
@@ -743,8 +765,8 @@ Proof.
         -- rewrite crash_app_r by lia. apply P6.
     + assert (Ew : ws = insert_writes b) by congruence.
       assert (Er : r = RSucc) by congruence. assert (Ee : ex = false) by congruence.
-      assert (Ev : vf' = vf1) by congruence. clear E0. subst ws r ex vf'.
-      split; [|split; [|split]]; auto.
+      assert (Ev : vf' = vf_get (hash b) vf1) by congruence. clear E0. subst ws r ex vf'.
+      split; [|split; [|split]]; auto using vf_ok_get.
       * exists (b :: top :: t). split; auto. split; auto. cbn [qhd]. split; intros; lia.
       * intro k. destruct (ins_crash _ _ _ Hc Ht R k) as [Q|Q]; eauto.
         exists (b :: top :: t). split; auto. now left.
@@ -873,12 +895,12 @@ Inductive move (l : list block) (b : block) : list block -> result -> Prop :=
 
 Lemma verify_disj : forall vf s l b anc rest, vf_ok vf -> rep s l -> U b -> U anc ->
   suffix (anc :: rest) l -> chain_ok (anc :: rest) -> pre b = hash anc ->
-  negb (vf (hash b)) && existsb (exec s) (txs b) = false ->
-  disj b (anc :: rest) /\ vf_ok (upd vf (hash b) true).
+  negb (vmem vf (hash b)) && existsb (exec s) (txs b) = false ->
+  disj b (anc :: rest) /\ vf_ok (if vmem vf (hash b) then vf else vf_add (hash b) vf).
 Proof.
   intros vf s l b anc rest Hvf R Ub Uanc Hs1 Hc1 Hha Ever.
-  destruct (vf (hash b)) eqn:Ehit.
-  - split. apply (Hvf b anc rest); auto. now apply vf_ok_upd_hit.
+  destruct (vmem vf (hash b)) eqn:Ehit.
+  - split. apply (Hvf b anc rest); auto. exact Hvf.
   - cbn in Ever. assert (D0 : disj b l) by (eapply exec_disj; eauto).
     assert (D1 : disj b (anc :: rest)) by (eapply disj_suffix; eauto).
     split; auto. apply vf_ok_upd; auto. intros a' rest' Hc' Hp'.
@@ -889,7 +911,8 @@ Qed.
 
 Lemma add_extend : forall f fut vf s top t b, rep s (top :: t) -> pre b = hash top ->
   findH (hash b) (top :: t) = None -> fut (hash b) = None -> disj b (top :: t) ->
-  add_writes (S f) fut vf s b = (insert_writes b, RSucc, false, upd vf (hash b) true).
+  add_writes (S f) fut vf s b =
+    (insert_writes b, RSucc, false, vf_get (hash b) (if vmem vf (hash b) then vf else vf_add (hash b) vf)).
 Proof.
   intros f fut vf s top t b R Hp Hf Hfu Hd. cbn [add_writes]. rewrite (r_cur _ _ R). cbn [hd_error].
   rewrite !(r_hash _ _ R), Hf.
@@ -923,14 +946,14 @@ Proof.
   2:{ eapply Stay; eauto. destruct (_ && _); discriminate. }
   pose proof Eanc as Eanc0. apply findH_some in Eanc. destruct Eanc as [Hia Hha].
   assert (Utop : U top) by (eapply chain_ok_U; eauto; now left).
-  destruct (negb (vf (hash b)) && existsb (exec s) (txs b)) eqn:Ever.
+  destruct (negb (vmem vf (hash b)) && existsb (exec s) (txs b)) eqn:Ever.
   { eapply Stay; eauto. discriminate. }
   destruct (drop_above_at _ _ Hc Hia) as [rest Hd].
   assert (Hs1 : suffix (anc :: rest) (top :: t)) by (rewrite <- Hd; apply drop_above_suffix).
   assert (Hc1 : chain_ok (anc :: rest)) by (eapply chain_ok_suffix; eauto; discriminate).
   assert (Uanc : U anc) by (apply (chain_ok_U _ _ Hc Hia)).
   destruct (verify_disj vf s _ b anc rest Hvf R Ub Uanc Hs1 Hc1 (eq_sym Hha) Ever) as [Dj Hvf1].
-  clear Ever. remember (upd vf (hash b) true) as vf1.
+  clear Ever. remember (if vmem vf (hash b) then vf else vf_add (hash b) vf) as vf1.
   assert (Reorg : (qn top < qn b \/ (qn top = qn b /\ exists x, findT (height anc + 1) (top :: t) = Some x /\ pvh_lt x b)) ->
     pre b <> hash top -> forall ws r ex vf',
     (let ws1 := rfca (N.to_nat (height top - height anc)) s (height anc) (height top) in
@@ -1009,6 +1032,131 @@ Proof.
   specialize (P3 He). rewrite (r_cur _ _ R) in H1. rewrite (r_cur _ _ P2) in H2.
   destruct l as [|x l0]; [discriminate|]. destruct l' as [|x' l0']; [discriminate|].
   cbn in H1, H2. inversion H1; inversion H2; subst. exact P3.
+Qed.
+
+(* ---------- fork switch (triggerOnChain) ---------- *)
+(* after the writes the store is the image of a chain, and so is every crash state up to a repair *)
+Definition q_post (s : st) (ws : list write) : Prop :=
+  (exists l', chain_ok l' /\ rep (apply ws s) l') /\
+  (forall k, exists l'', chain_ok l'' /\ quasi (crash k ws s) l'').
+
+Lemma q_nil : forall s l, chain_ok l -> rep s l -> q_post s [].
+Proof.
+  intros s l Hc R. split. now exists l.
+  intro k. exists l. rewrite firstn_nil_crash. split; auto. now left.
+Qed.
+
+Lemma q_app : forall s ws1 ws2, q_post s ws1 ->
+  (forall l1, chain_ok l1 -> rep (apply ws1 s) l1 -> q_post (apply ws1 s) ws2) -> q_post s (ws1 ++ ws2).
+Proof.
+  intros s ws1 ws2 [[l1 [C1 R1]] K1] H2. destruct (H2 l1 C1 R1) as [[l2 [C2 R2]] K2]. split.
+  - exists l2. rewrite apply_app. auto.
+  - intro k. destruct (le_lt_dec k (length ws1)) as [Hk|Hk].
+    + rewrite crash_app_l by auto. apply K1.
+    + rewrite crash_app_r by lia. apply K2.
+Qed.
+
+Definition fork_ok (fk : fork) : Prop := forall h b, f_blocks fk h = Some b -> U b.
+
+Lemma fork_adds_ok : forall n fuel v s fk c l, vol_ok v -> fork_ok fk -> chain_ok l -> rep s l ->
+  forall ws ok c2 v2 ex, fork_adds n fuel v s fk c = (ws, ok, c2, v2, ex) -> q_post s ws /\ vol_ok v2.
+Proof.
+  induction n as [|n IH]; intros fuel v s fk c l Hv Hfk Hc R ws ok c2 v2 ex E0.
+  { cbn in E0. inversion E0; subst. split; auto. eapply q_nil; eauto. }
+  cbn [fork_adds] in E0.
+  destruct (height (f_latest fk) <? c). { inversion E0; subst. split; auto. eapply q_nil; eauto. }
+  destruct (f_blocks fk c) as [b|] eqn:Eb. 2:{ inversion E0; subst. split; auto. eapply q_nil; eauto. }
+  assert (Ub : U b) by (eapply Hfk; eauto).
+  destruct v as [fut vf]. destruct Hv as [Hf Hvf]. cbn [fst snd] in *.
+  destruct (byHash s (pre b)).
+  2:{ inversion E0; subst. split. eapply q_nil; eauto. split; cbn; auto. now apply upd_futs_ok. }
+  destruct (is_some (byHash s (hash b))).
+  { inversion E0; subst. split. eapply q_nil; eauto. split; auto. }
+  destruct (add_writes fuel fut vf s b) as [[[ws1 r1] ex1] vf1] eqn:E1.
+  destruct (add_ok fuel fut vf s l b Hf Hvf Hc R Ub _ _ _ _ E1) as [[l1 [P1 [P2 _]]] [_ [P6 P7]]].
+  assert (Q1 : q_post s ws1) by (split; [now exists l1|exact P6]).
+  destruct r1; try (inversion E0; subst; split; [exact Q1|split; auto]).
+  destruct (fork_adds n fuel (fut, vf1) (apply ws1 s) fk (c + 1)) as [[[[ws2 ok2] c3] v3] ex2] eqn:E2.
+  inversion E0; subst.
+  split.
+  - apply q_app; auto. intros l' C' R'.
+    exact (proj1 (IH fuel (fut, vf1) (apply ws1 s) fk (c + 1) l' (conj Hf P7) Hfk C' R' _ _ _ _ _ E2)).
+  - exact (proj2 (IH fuel (fut, vf1) (apply ws1 s) fk (c + 1) l1 (conj Hf P7) Hfk P1 P2 _ _ _ _ _ E2)).
+Qed.
+
+Lemma fork_anc_in : forall n fk s l ht acc a, fork_ok fk -> chain_ok l -> rep s l ->
+  (forall x, acc = Some x -> In x l) -> fork_anc n fk s ht acc = Some a -> In a l.
+Proof.
+  induction n as [|n IH]; intros fk s l ht acc a Hfk Hc R Hacc E0; cbn in E0. now apply Hacc.
+  destruct (height (f_latest fk) <? ht). now apply Hacc.
+  destruct (f_blocks fk ht) as [fb|] eqn:Ef; [|now apply Hacc].
+  rewrite (r_height _ _ R) in E0.
+  destruct (findT ht l) as [cb|] eqn:Ec; [|now apply Hacc].
+  destruct (N.eqb_spec (hash cb) (hash fb)) as [e|ne]; [|now apply Hacc].
+  apply findT_some in Ec. destruct Ec as [Hi _].
+  assert (cb = fb) by (apply U_inj; auto; [eapply chain_ok_U; eauto|eapply Hfk; eauto]). subst cb.
+  apply (IH fk s l (ht + 1) (Some fb) a Hfk Hc R); [|exact E0]. intros x Hx. inversion Hx; now subst.
+Qed.
+
+Lemma fork_trigger_ok : forall fuel v s fk l, vol_ok v -> fork_ok fk -> chain_ok l -> rep s l ->
+  forall ws ok fk' v2 ex, fork_trigger fuel v s fk = (ws, ok, fk', v2, ex) -> q_post s ws /\ vol_ok v2.
+Proof.
+  intros fuel v s fk l Hv Hfk Hc R ws ok fk' v2 ex E0. unfold fork_trigger in E0.
+  rewrite (r_cur _ _ R) in E0. destruct l as [|top t]; [contradiction|]. cbn [hd_error] in E0.
+  destruct (qn (f_latest fk) <? qn top). { inversion E0; subst. split; auto. eapply q_nil; eauto. }
+  destruct (fork_anc _ fk s (f_current fk) None) as [a|] eqn:Ea.
+  2:{ inversion E0; subst. split; auto. eapply q_nil; eauto. }
+  destruct ((qn (f_latest fk) =? qn top) && next_pv_great a top fk s).
+  { inversion E0; subst. split; auto. eapply q_nil; eauto. }
+  assert (Hia : In a (top :: t)) by (eapply fork_anc_in; eauto; discriminate).
+  assert (Hb : forall y, In y (top :: t) -> height y <= height top).
+  { intros y [<-|Hy]. lia. pose proof (chain_ok_lt _ _ _ Hc Hy). lia. }
+  destruct (rfca_ok (N.to_nat (height top - height a)) s (top :: t) (height a) (height top) Hc R
+              (ex_intro _ a (conj Hia eq_refl)) Hb (le_n _)) as [R1 C1].
+  destruct (drop_above_at _ _ Hc Hia) as [rest Hd]. rewrite Hd in R1, C1.
+  assert (Hs1 : suffix (a :: rest) (top :: t)) by (rewrite <- Hd; apply drop_above_suffix).
+  assert (Hc1 : chain_ok (a :: rest)) by (eapply chain_ok_suffix; eauto; discriminate).
+  destruct v as [fut vf]. destruct Hv as [Hf Hvf]. cbn [fst snd] in *.
+  destruct (f_current fk =? f_header fk).
+  - set (ws0 := rfca (N.to_nat (height top - height a)) s (height a) (height top)) in *.
+    destruct (fork_adds _ fuel (fut, vf_after ws0 vf) (apply ws0 s) fk (f_current fk + 1))
+      as [[[[ws1 ok1] c2] v3] ex1] eqn:E1.
+    inversion E0; subst.
+    assert (Q0 : q_post s ws0).
+    { split. now exists (a :: rest). intro k. destruct (C1 k) as [l'' [X1 [X2 _]]]. eauto. }
+    assert (Hv1 : vol_ok (fut, vf_after ws0 vf)) by (split; cbn; auto using vf_ok_after).
+    split.
+    + apply q_app; auto. intros l1 X1 X2.
+      exact (proj1 (fork_adds_ok _ fuel _ _ fk _ l1 Hv1 Hfk X1 X2 _ _ _ _ _ E1)).
+    + exact (proj2 (fork_adds_ok _ fuel _ _ fk _ _ Hv1 Hfk Hc1 R1 _ _ _ _ _ E1)).
+  - cbn [app apply fold_left vf_after] in E0.
+    destruct (fork_adds _ fuel (fut, vf) s fk (f_current fk)) as [[[[ws1 ok1] c2] v3] ex1] eqn:E1.
+    inversion E0; subst. cbn [app].
+    assert (Hv1 : vol_ok (fut, vf)) by (split; auto).
+    exact (fork_adds_ok _ fuel _ _ fk _ _ Hv1 Hfk Hc R _ _ _ _ _ E1).
+Qed.
+
+(* one triggerOnChain call, cut anywhere, interrupted restarts, one complete restart: Inv *)
+Lemma fork_crash_safe : forall fuel v s fk, vol_ok v -> fork_ok fk -> Inv s -> forall k js,
+  Inv (apply (fst (fst (fst (fst (fork_trigger fuel v s fk))))) s) /\
+  Inv (recover (faults js (crash k (fst (fst (fst (fst (fork_trigger fuel v s fk))))) s))).
+Proof.
+  intros fuel v s fk Hv Hfk [l [Hc R]] k js.
+  destruct (fork_trigger fuel v s fk) as [[[[ws ok] fk'] v2] ex] eqn:E0. cbn [fst].
+  destruct (fork_trigger_ok fuel v s fk l Hv Hfk Hc R _ _ _ _ _ E0) as [[[l' [C' R']] K] _]. split.
+  - now exists l'.
+  - destruct (K k) as [l'' [Q1 Q2]]. exists l''. split; auto. now apply faults_recover.
+Qed.
+
+Lemma fork_new_ok : forall a, U a -> fork_ok (fork_new a).
+Proof.
+  intros a Ua h b. unfold fork_new, upd. cbn. destruct (h =? height a); [|discriminate]. intro E0. inversion E0. now subst.
+Qed.
+
+Lemma fork_add_ok : forall fk b, fork_ok fk -> U b -> fork_ok (fst (fork_add fk b)).
+Proof.
+  intros fk b Hfk Ub. unfold fork_add. destruct (_ && _); cbn; auto.
+  intros h x. cbn. unfold upd. destruct (h =? height b); [|now apply Hfk]. intro E0. inversion E0. now subst.
 Qed.
 
 (* ---------- first start: insertGenesisBlock cut anywhere, then a restart ---------- *)
